@@ -289,6 +289,24 @@ theorem strip_keeps_exactly {L : KV} {s : Props} (h : Inv L s) (except : List Ke
         simp [hk, hd, hv, ← h.untouched k hm hd]
   · simp [hk]
 
+/-! ### JSON round trip -/
+
+/-- Encoding a Properties / a node to JSON and decoding it into a fresh value loses nothing the tracking needs: the map,
+both tracking sets (nil stays nil, empty stays empty), the kinds and both kind deltas come back as they were — so a
+decoded entity reports exactly the delta the encoded one did, and the history invariant survives (`Op.json` is an
+operation of `C12_full`).  The struct tags and the fields the encoder / decoder handle are tied to the source in
+Props/C12Api.lean (`json_tags_match`, `json_carries_tracking`); the real encoding/json is run by the tie. -/
+theorem json_round_trip (s : Props) (x : Ent) :
+    Props.ofJson s.toJson = s ∧ x.jsonRoundTrip = x ∧
+    (Props.ofJson s.toJson).modifiedProperties = s.modifiedProperties ∧
+    (Props.ofJson s.toJson).deletedProperties = s.deletedProperties :=
+  ⟨props_json_roundtrip s, ent_json_roundtrip x, by rw [props_json_roundtrip], by rw [props_json_roundtrip]⟩
+
+/-- the decoder really reads the members (it is not the identity by accident): dropping the `deleted` member loses the
+deletions -/
+example : (Props.ofJson ((f4s.toJson).filter (fun p => p.1 != "deleted"))).deleted = none ∧ f4s.deleted = some [0] := by
+  decide
+
 /-! ### consumers (the table of real update paths is tied in Props/C12Consumers.lean) -/
 
 /-- Semantics of the two complete forms, for every entity that satisfies the invariant (i.e. after every history,
